@@ -330,3 +330,67 @@ Definition call_result_eqb (a b : list output * outcome * nat) : bool :=
 (* does the model, run on the events the implementation consumed, produce what the implementation did? *)
 Definition agrees (k : conn) (calls : list call) (observed : list (list output * outcome * nat)) : bool :=
   list_eqb call_result_eqb (run_conn k calls) observed.
+
+(* ------------------------------------------------------------------------------------------------ *)
+(* Compact notation for long observed schedules (harness only): runs of events / commands whose       *)
+(* fields advance by one, and a digest of a long trace                                                *)
+(* ------------------------------------------------------------------------------------------------ *)
+
+Inductive evspec := ELit (e : event) | ERun (n : N) (rc s x t : Z).
+Inductive cmdspec := CLit (c : cmd) | CRun (n : N) (id extra : Z).
+
+(* n events, the i-th carrying the single datagram (rc, (s+i) mod 2^16, x+i) with the clock at t+i *)
+Fixpoint run_events (n : nat) (rc s x t : Z) : list event :=
+  match n with
+  | O => []
+  | S n' => Ev [Dg rc s x] t :: run_events n' rc ((s + 1) mod 65536) (x + 1) (t + 1)
+  end.
+
+Fixpoint expand_events (l : list evspec) : list event :=
+  match l with
+  | [] => []
+  | ELit e :: l' => e :: expand_events l'
+  | ERun n rc s x t :: l' => run_events (N.to_nat n) rc s x t ++ expand_events l'
+  end.
+
+Fixpoint run_cmds (n : nat) (id extra : Z) : list cmd :=
+  match n with
+  | O => []
+  | S n' => Cmd id extra :: run_cmds n' (id + 1) extra
+  end.
+
+Fixpoint expand_cmds (l : list cmdspec) : list cmd :=
+  match l with
+  | [] => []
+  | CLit c :: l' => c :: expand_cmds l'
+  | CRun n id extra :: l' => run_cmds (N.to_nat n) id extra ++ expand_cmds l'
+  end.
+
+Definition digest_mod : Z := 2305843009213693951.
+Definition digest_step (h x : Z) : Z := (h * 1000003 + x + 7) mod digest_mod.
+Definition digest_dgram (h : Z) (d : dgram) : Z :=
+  digest_step (digest_step (digest_step h (d_rc d)) (d_seq d)) (d_src d).
+Definition digest_output (h : Z) (o : output) : Z :=
+  match o with
+  | OSend tx c s t => digest_step (digest_step (digest_step (digest_step (digest_step h 1) tx) c) s) t
+  | OSelect t => digest_step (digest_step h 2) t
+  | ORecv d => digest_dgram (digest_step h 3) d
+  | OCallback c d => digest_dgram (digest_step (digest_step h 4) c) d
+  end.
+Definition digest (tr : list output) : Z := fold_left digest_output tr 0.
+
+(* long calls: compare digest, length, the last outputs, the outcome *)
+Definition summary (n : nat) (r : list output * outcome * nat) : Z * nat * list output * outcome * nat :=
+  match r with
+  | (tr, oc, rest) => (digest tr, length tr, skipn (length tr - n) tr, oc, rest)
+  end.
+
+Definition summary_eqb (a b : Z * nat * list output * outcome * nat) : bool :=
+  match a, b with
+  | (h, n, tl, oc, r), (h', n', tl', oc', r') =>
+      (h =? h') && Nat.eqb n n' && list_eqb output_eqb tl tl' && outcome_eqb oc oc' && Nat.eqb r r'
+  end.
+
+Definition agrees_summary (n : nat) (k : conn) (calls : list call)
+           (observed : list (Z * nat * list output * outcome * nat)) : bool :=
+  list_eqb summary_eqb (map (summary n) (run_conn k calls)) observed.
